@@ -214,9 +214,15 @@ example : thResolution [] [2, 1, 1] [⟨[.var 7], mkOr (.var 0) (.var 1)⟩, ⟨
 
 /-! ### whole proofs -/
 
-/-- A proof made of `assume` commands and tier-1 steps that evaluation mode accepts and that ends
-in the empty clause (`false`) shows that the assumed formulas are jointly unsatisfiable. -/
-theorem empty_clause_unsat (I : Interp) (hI : I.LeOrder) (cmds : List Cmd) (res : List Seq) (s : Seq)
+/-- PARTIAL.  A proof that evaluation mode accepts and that ends in the empty clause (`false`) shows
+that the assumed formulas are jointly unsatisfiable — proved for proofs made of `assume` commands
+and steps of the rules in `Rule` (the propositional clause rules, resolution, eq_reflexive,
+la_disequality, la_rw_eq) whose steps are `wellKinded` (true of well-typed steps; `runProof` tests
+it, the Python does not — `runProof_agrees_raw` relates it to the untested run that the driver
+compares with `proof_rec.validate`).  Missing: steps of la_generic (its theorem `la_generic_sound`
+is about the parsed arithmetic, not the term model), of the equality-chain / congruence rules and
+of every tier-2 rule; subproofs / anchors / contexts. -/
+theorem empty_clause_unsat_partial (I : Interp) (hI : I.LeOrder) (cmds : List Cmd) (res : List Seq) (s : Seq)
     (h : runProof cmds [] = .ok res) (hlast : res.getLast? = some s) (hs : s.prop = ff) :
     ¬ ∀ t ∈ assumptions cmds, tr I t := by
   intro hall
@@ -225,6 +231,11 @@ theorem empty_clause_unsat (I : Interp) (hI : I.LeOrder) (cmds : List Cmd) (res 
   have := h1 (fun x hx => hall x (h2 x hx))
   rw [hs] at this
   exact tr_ff I this
+
+/-- what `runProof` accepts, the run without the `wellKinded` test (the one compared with the
+implementation) accepts with the same result -/
+theorem runProof_agrees_raw (cmds : List Cmd) (res : List Seq) (h : runProof cmds [] = .ok res) :
+    runProofRaw cmds [] = .ok res := runProof_raw cmds [] res h
 
 /-- non-vacuity: assume `a --> b`, `a`, `~b`; `implies`; `resolution` to the empty clause -/
 example : (runProof [.assume (mkImp (.var 0) (.var 1)), .assume (.var 0), .assume (mkNot (.var 1)),
